@@ -144,6 +144,7 @@ class Evaluator:
         module=None,
     ):
         self.repo = repo
+        self.extra_types: tuple = ()  # additional abstract value classes a rule brings along
         self.binop_hook = None  # optional callable(op, a, b) -> value | NO_MATCH
         self.opaque_arith = False  # if True, arithmetic on symbolic atoms yields an opaque geometry atom
         self.mod_stack: List[Any] = [module] if module is not None else []
@@ -164,6 +165,8 @@ class Evaluator:
     def _check(self, v, node):
         if isinstance(v, float):
             return v  # floats may be carried (tolerance constants) but no arithmetic is defined on them
+        if self.extra_types and isinstance(v, self.extra_types):
+            return v
         if not isinstance(v, ALLOWED) and not callable(v):
             raise NotEvaluable(f"value of type {type(v).__name__} outside the index domain: {ast.unparse(node)[:60]}")
         return v
